@@ -135,7 +135,12 @@ static void main_fiber(void) {
   fiber_cond_init(&cond);
   fiber_semaphore_init(&sem, 0);
   for (int f = 0; f < nf; f++) { fiber_signal_init(&sigs[f]); chans[f] = fiber_bounded_channel_create(2, &sigs[f]); receiving[f] = 0; }
+  /* optional 3rd parameter: the main fiber's FIRST blocking call is a sleep (1: before it creates the fibers, 2: right
+   * after): the first time a kernel thread runs out of runnable fibers it creates its scheduler-loop fiber on the way */
+  long first = cur->nparams > 2 ? cur->params[2] : 0;
+  if (first == 1) usleep(1000);
   for (int f = 0; f < nf; f++) fs[f] = fiber_create(20000, &fiber_prog, (void*)(intptr_t)f);
+  if (first == 2) usleep(6000);
   /* keep releasing condition waiters until every fiber has finished */
   while (atomic_load(&nfinished) < nf) {
     fiber_mutex_lock(&mtx[0]); flag = 1; fiber_cond_broadcast(&cond); fiber_mutex_unlock(&mtx[0]);
